@@ -127,32 +127,27 @@ class Contract(RowCheck):
                 "sample": {"row": row, "seed": seed, "batches": T, "ess": ess, "n_total": n_total, "ess_trim": ess_trim, "bins": bins}}
 
 
-def exec_full(case):
-    """the same contract over complete random configurations (vlib.cfggen)"""
+def check_after_run(case, s, t, n_total, where):
+    """postconditions of one run() call and the posterior()/evidence() contract, on sampler s"""
     from vlib import cfggen
 
-    np.random.seed(case["rs_value"] % 2**31)
-    s, t = cfggen.build(case)
     st = core_of(s).state
-    n_total = int(case["n_particles"] * [1, 3, 6][case["tseed"] % 3])
-    with quiet():
-        lib_call(s.run, n_total=n_total, progress=False, what="Sampler.run")
     T = st.get_history_length()
     beta = float(st.get_current("beta"))
     if not abs(1.0 - beta) < 1e-4:
-        raise Violation(f"run() returned with beta={beta!r}", sig={"kind": "beta-not-one"})
+        raise Violation(f"{where}: run() returned with beta={beta!r}", sig={"kind": "beta-not-one"})
     L = [np.asarray(st.get_history("logl", index=i), dtype=float) for i in range(T)]
     lw, lz, M = mis_logw(L, [float(b) for b in st.get_history("beta")], [float(z) for z in st.get_history("logz")], 1.0)
     ess = ess_from_logw(lw)
     if ess < n_total * (1 - 1e-9):
-        raise Violation(f"run(n_total={n_total}) returned with posterior ESS {ess:.3f} < n_total", sig={"kind": "ess-below-ntotal"})
+        raise Violation(f"{where}: run(n_total={n_total}) returned with posterior ESS {ess:.3f} < n_total", sig={"kind": "ess-below-ntotal"})
     ev = lib_call(s.evidence, what="Sampler.evidence")
     if abs(float(ev[0]) - float(lz)) > 1e-9 * max(1.0, abs(float(lz))):
-        raise Violation(f"evidence()={float(ev[0])!r} but the MIS evidence at beta=1 recomputed from the history is {float(lz)!r}",
+        raise Violation(f"{where}: evidence()={float(ev[0])!r} but the MIS evidence at beta=1 recomputed from the history is {float(lz)!r}",
                         sig={"kind": "evidence-mismatch"})
     nblob = {"blobs": 1, "blobs2": 2}.get(case["mode"], 0)
     for rs, tr, rb, rl in itertools.product([False, True], repeat=4):
-        what = f"posterior(resample={rs}, trim_importance_weights={tr}, return_blobs={rb}, return_logw={rl})"
+        what = f"{where}: posterior(resample={rs}, trim_importance_weights={tr}, return_blobs={rb}, return_logw={rl})"
         o = lib_call(s.posterior, resample=rs, trim_importance_weights=tr, return_blobs=rb, return_logw=rl, what=what)
         arity = 3 + (1 if (rb and nblob) else 0) + (1 if rl else 0)
         if not isinstance(o, tuple) or len(o) != arity or len({len(a) for a in o}) != 1:
@@ -166,8 +161,48 @@ def exec_full(case):
                 raise Violation(f"{what}: row {i}: logl does not belong to x", sig={"kind": "row-logl"})
             if rb and nblob and not np.array_equal(np.asarray(o[3][i], dtype=float).ravel(), np.array(t.blob_vec(x[i]))):
                 raise Violation(f"{what}: row {i}: blob does not belong to x", sig={"kind": "row-blob"})
-    return {"nontrivial": T >= 3, "classes": ["mode:" + case["mode"], "metric:" + case["metric"], "pool:%s" % case["pool"], "extra:" + case["ll_extra"]],
-            "sample": cfggen.summary(case)}
+    return T
+
+
+def exec_full(case):
+    """the same contract over complete random configurations (vlib.cfggen); one case in three is a sequence of run() calls:
+    a first request with checkpoints, then a fresh sampler resumed from one of them with a different (usually larger) request,
+    then the same object asked again for more - every run() call owes the postconditions of ITS request"""
+    import glob
+    import os
+
+    from vlib import cfggen
+    from vlib.runs import scratch_dir
+
+    np.random.seed(case["rs_value"] % 2**31)
+    n_total = int(case["n_particles"] * [1, 3, 6][case["tseed"] % 3])
+    sequence = case["pool_seed"] % 3 == 0 and case["pool"] in (None, 1)
+    classes = ["mode:" + case["mode"], "metric:" + case["metric"], "pool:%s" % case["pool"], "extra:" + case["ll_extra"]]
+    if not sequence:
+        s, t = cfggen.build(case)
+        with quiet():
+            lib_call(s.run, n_total=n_total, progress=False, what="Sampler.run")
+        T = check_after_run(case, s, t, n_total, "fresh run")
+        return {"nontrivial": T >= 3, "classes": classes, "sample": cfggen.summary(case)}
+    with scratch_dir() as od:
+        s, t = cfggen.build(case, output_dir=od)
+        with quiet():
+            lib_call(s.run, n_total=n_total, progress=False, save_every=1 + case["pool_seed"] % 2, what="Sampler.run(save_every=...)")
+        T = check_after_run(case, s, t, n_total, "first run (with checkpoints)")
+        files = sorted(glob.glob(os.path.join(od, "*.state")))
+        if not files:
+            raise Violation("run(save_every=...) wrote no checkpoint", sig={"kind": "no-checkpoint"})
+        f = files[(case["pool_seed"] // 3) % len(files)]
+        n2 = int(n_total * [2, 3, 0.5, 1][(case["pool_seed"] // 7) % 4]) or 1
+        s2, t2 = cfggen.build(case, output_dir=od)
+        with quiet():
+            lib_call(s2.run, n_total=n2, progress=False, resume_state_path=f, what="Sampler.run(resume_state_path=...)")
+        check_after_run(case, s2, t2, n2, f"fresh sampler resumed from {os.path.basename(f)} (first request {n_total}, this request {n2})")
+        n3 = 2 * max(n2, n_total)
+        with quiet():
+            lib_call(s2.run, n_total=n3, progress=False, resume_state_path=files[-1], what="Sampler.run(resume_state_path=final)")
+        check_after_run(case, s2, t2, n3, f"same sampler resumed again from {os.path.basename(files[-1])} with a larger request {n3}")
+    return {"nontrivial": T >= 3, "classes": classes + ["sequence:run-resume-resume"], "sample": cfggen.summary(case)}
 
 
 def _full_cases():
